@@ -225,6 +225,41 @@ inline V make_real_coord(const double *x)
     }
 }
 
+// field_view offers two lookup forms: at(coordinate_t) and at(scalar, scalar, ...) - the
+// second is the one every test, example and benchmark uses. Both are exercised.
+template <class V, class C, std::size_t... I>
+inline decltype(auto) at_scalars_impl(const V &v, const C &c, std::index_sequence<I...>)
+{
+    return v.at(c[I]...);
+}
+template <class C>
+constexpr std::size_t coord_dims()
+{
+    if constexpr (std::is_arithmetic_v<C>)
+        return 0;
+    else
+        return C::dimensions;
+}
+template <class V, class C>
+concept has_scalar_at = (!std::is_arithmetic_v<C>) && requires(const V &v, const C &c) {
+    at_scalars_impl(v, c, std::make_index_sequence<coord_dims<C>()>{});
+};
+template <class V, class C>
+inline decltype(auto) at_scalars(const V &v, const C &c)
+{
+    return at_scalars_impl(v, c, std::make_index_sequence<coord_dims<C>()>{});
+}
+// at(...) in one of the two forms; `scalars` is ignored where the view has only one
+template <class V, class C>
+inline decltype(auto) at_either(const V &v, const C &c, bool scalars)
+{
+    if constexpr (has_scalar_at<V, C>) {
+        if (scalars)
+            return at_scalars(v, c);
+    }
+    return v.at(c);
+}
+
 // Only the row-major layer can be built from its extents alone (it then sizes the array
 // itself); the Morton and Hilbert layers offer no such constructor.
 template <class T>
@@ -399,7 +434,7 @@ struct Core {
         F &f = *static_cast<F *>(obj);
         if constexpr (Tr::view_writable) {
             typename F::view_t v(f);
-            auto &cell = v.at(make_coord<typename F::coordinate_t>(c));
+            auto &cell = at_either(v, make_coord<typename F::coordinate_t>(c), (c[0] & 1) != 0);
             for (int j = 0; j < Tr::M; ++j)
                 cell[j] = from_bits<std::decay_t<decltype(cell[0])>>(bits[j]);
         } else if constexpr (Tr::shape != sim::SHAPE_NONE) {
@@ -414,7 +449,7 @@ struct Core {
         const F &f = *static_cast<const F *>(obj);
         if constexpr (Tr::view_writable) {
             typename F::view_t v(f);
-            auto &cell = v.at(make_coord<typename F::coordinate_t>(c));
+            auto &cell = at_either(v, make_coord<typename F::coordinate_t>(c), (c[0] & 2) != 0);
             for (int j = 0; j < Tr::M; ++j)
                 bits[j] = to_bits(cell[j]);
         } else if constexpr (Tr::shape != sim::SHAPE_NONE) {
@@ -434,10 +469,22 @@ struct Core {
         for (std::size_t j = 0; j < OD; ++j)
             bits[j] = to_bits(r[j]);
     }
+    static void lookup_va(const void *obj, const double *x, uint64_t *bits)
+    {
+        const F &f = *static_cast<const F *>(obj);
+        typename F::view_t v(f);
+        typename F::coordinate_t c = make_real_coord<typename F::coordinate_t>(x);
+        auto r = at_either(v, c, true);
+        constexpr std::size_t OD = B::covariant_output_t::dimensions;
+        for (std::size_t j = 0; j < OD; ++j)
+            bits[j] = to_bits(r[j]);
+    }
     static void reg()
     {
         sim::SlotOps &o = sim::ops_of(Tr::index);
         o.has_core = true;
+        if constexpr (has_scalar_at<typename F::view_t, typename F::coordinate_t>)
+            o.lookup_va = &lookup_va;
         o.obj_size = sizeof(F);
         o.obj_align = alignof(F);
         o.construct = &construct;
@@ -597,11 +644,20 @@ struct Thr {
         for (std::size_t j = 0; j < OD; ++j)
             bits[j] = to_bits(r[j]);
     }
+    static void view_lookup_va(const void *view, const double *x, uint64_t *bits)
+    {
+        const V &v = *static_cast<const V *>(view);
+        typename F::coordinate_t c = make_real_coord<typename F::coordinate_t>(x);
+        auto r = at_either(v, c, true);
+        constexpr std::size_t OD = B::covariant_output_t::dimensions;
+        for (std::size_t j = 0; j < OD; ++j)
+            bits[j] = to_bits(r[j]);
+    }
     static void view_write(const void *view, const std::size_t *c, const uint64_t *bits)
     {
         if constexpr (Tr::view_writable) {
             const V &v = *static_cast<const V *>(view);
-            auto &cell = v.at(make_coord<typename F::coordinate_t>(c));
+            auto &cell = at_either(v, make_coord<typename F::coordinate_t>(c), (c[0] & 1) != 0);
             for (int j = 0; j < Tr::M; ++j)
                 cell[j] = from_bits<std::decay_t<decltype(cell[0])>>(bits[j]);
         }
@@ -613,7 +669,7 @@ struct Thr {
         if constexpr (ref_out) {
             const V &v = *static_cast<const V *>(view);
             typename F::coordinate_t c = make_real_coord<typename F::coordinate_t>(x);
-            auto &cell = v.at(c);
+            auto &cell = at_either(v, c, (bits[0] & 1) != 0);
             for (int j = 0; j < Tr::M; ++j)
                 cell[j] = from_bits<std::decay_t<decltype(cell[0])>>(bits[j]);
         }
@@ -622,7 +678,7 @@ struct Thr {
     {
         if constexpr (Tr::view_writable) {
             const V &v = *static_cast<const V *>(view);
-            auto &cell = v.at(make_coord<typename F::coordinate_t>(c));
+            auto &cell = at_either(v, make_coord<typename F::coordinate_t>(c), (c[0] & 2) != 0);
             for (int j = 0; j < Tr::M; ++j)
                 bits[j] = to_bits(cell[j]);
         }
@@ -635,6 +691,8 @@ struct Thr {
         o.copy_view = &copy_view;
         o.free_view = &free_view;
         o.view_lookup = &view_lookup;
+        if constexpr (has_scalar_at<V, typename F::coordinate_t>)
+            o.view_lookup_va = &view_lookup_va;
         o.view_write = &view_write;
         o.view_read = &view_read;
         o.ref_output = ref_out;
